@@ -53,6 +53,9 @@ func Open(r io.ReaderAt, size int64) (*XAR, error) {
 		heap:     io.NewSectionReader(r, base, 1<<62),
 	}
 	if toc.Signature != nil {
+		if toc.Signature.Size < 0 || toc.Signature.Size > size {
+			return nil, errors.New("reading signature: size is out of range")
+		}
 		s.ClassicSignature = make([]byte, toc.Signature.Size)
 		if _, err := r.ReadAt(s.ClassicSignature, base+toc.Signature.Offset); err != nil {
 			return nil, fmt.Errorf("reading signature: %w", err)
@@ -63,6 +66,9 @@ func Open(r io.ReaderAt, size int64) (*XAR, error) {
 		}
 	}
 	if toc.XSignature != nil {
+		if toc.XSignature.Size < 0 || toc.XSignature.Size > size {
+			return nil, errors.New("reading CMS signature: size is out of range")
+		}
 		s.CMSSignature = make([]byte, toc.XSignature.Size)
 		if _, err := r.ReadAt(s.CMSSignature, base+toc.XSignature.Offset); err != nil {
 			return nil, fmt.Errorf("reading CMS signature: %w", err)
